@@ -256,6 +256,12 @@ class GenElem(Elem):
                 i = self.expr(sl)
                 return WherePart(base, i)
             if isinstance(base, tuple):
+                if isinstance(sl, ast.Slice):
+                    lo = self.expr(sl.lower) if sl.lower is not None else None
+                    hi = self.expr(sl.upper) if sl.upper is not None else None
+                    if (lo is not None and not isinstance(lo, int)) or (hi is not None and not isinstance(hi, int)) or sl.step is not None:
+                        self.err("slice of a tuple with non-constant bounds", e)
+                    return base[lo:hi]
                 return base[self.expr(sl)]
             # a concrete boolean mask on the coordinate axis selects this coordinate or nothing
             vals = []
@@ -395,6 +401,20 @@ class GenElem(Elem):
             recv = self.expr(e.func.value)
             if e.func.attr in ("reshape", "squeeze", "copy", "astype"):
                 return recv
+        repo = getattr(self, "repo_ref", None)
+        if repo is not None and d and "." not in d:
+            g = repo.resolve_name(self.func.module, d, self.func)
+            if hasattr(g, "node") and g.module is self.func.module and not e.keywords and len(args) == len(g.params) and getattr(self, "depth", 0) < 2:
+                # a private helper of the same module: evaluated in place on the same kind of values
+                sub = GenElem.__new__(GenElem)
+                Elem.__init__(sub, g, dict(zip(g.params, args)), rule="GENERAL")
+                sub.m, sub.nval = self.m, self.nval
+                sub.repo_ref = repo
+                sub.depth = getattr(self, "depth", 0) + 1
+                sub.run()
+                if len(sub.returns) != 1:
+                    self.err(f"the helper {d} does not have exactly one return", e)
+                return sub.returns[0][1]
         self.err(f"call `{d}` not modelled in the general back-end evaluator", e)
 
 
@@ -415,6 +435,7 @@ def run_general(repo, R, max_m=4, max_n=6):
         for nval in range(0, max_n + 1):
             total += 1
             E = GenElem(f, m, nval)
+            E.repo_ref = repo
             try:
                 E.run()
             except Misaligned as mis:
